@@ -1003,7 +1003,24 @@ def run_program(env, cfg, prog, record=True, plain=False, fault=None):
             fl = 'error: %s' % type(e).__name__
         fault_info['statements'] = fstate['statements']
         fault_info['fired'] = fstate['fired']
-        return dict(trace=rec.trace if rec else [], snaps=rec.snaps if rec else [], outcomes=outcomes,
+        ce = None
+        if rec and env.versioned and cfg.get('read_changed_entities'):
+            # the real Transaction.changed_entities of every record, through a fresh session on the same connection
+            ce = []
+            s2 = env.session()
+            try:
+                Tx = env.manager.transaction_cls
+                vmap = {env.version_class(c): i for i, c in enumerate(classes) if hasattr(c, '__versioned__')}
+                for tx in s2.query(Tx).order_by(Tx.id).all():
+                    for vcls, objs in tx.changed_entities.items():
+                        if vcls in vmap:
+                            m = sa.inspect(classes[vmap[vcls]])
+                            keys = [m.get_property_by_column(col).key for col in m.primary_key]
+                            for o in objs:
+                                ce.append([tx.id, vmap[vcls], [getattr(o, k) for k in keys]])
+            finally:
+                s2.close()
+        return dict(trace=rec.trace if rec else [], snaps=rec.snaps if rec else [], outcomes=outcomes, changed_entities=ce,
                     ccfg=reflect_cfg(env, cfg) if not plain else [], exc=None, final_live=fl, fault=fault_info)
     except Exception as e:               # harness-level failure
         import traceback
@@ -1161,8 +1178,11 @@ def twin_diffs(obs):
 
 def encode_case(case, obs):
     if obs['exc'] is not None or obs.get('plain_exc') is not None:
-        return '(mkcase (mkcfg true false false false false []) [] [] true 0 false)'
+        return '(mkcase (mkcfg true false false false false []) [] [] true 0 false None)'
     n, livediff = twin_diffs(obs)
-    return '(mkcase %s %s %s false %s %s)' % (
+    ce = obs.get('changed_entities')
+    gce = 'None' if ce is None else '(Some %s)' % glist(
+        ce, lambda x: '(%s, %s, %s)' % (gZ(x[0]), gnat(x[1]), glist([coerce_val(v) for v in x[2]])))
+    return '(mkcase %s %s %s false %s %s %s)' % (
         g_cfg(case['cfg'], obs['ccfg']), glist(obs['trace'], g_event),
-        glist(obs['snaps'], lambda s: g_snap(s, obs['ccfg'])), gnat(n), gbool(livediff))
+        glist(obs['snaps'], lambda s: g_snap(s, obs['ccfg'])), gnat(n), gbool(livediff), gce)
